@@ -12,6 +12,7 @@ import (
 	"strings"
 	"sync"
 	"sync/atomic"
+	"syscall"
 	"time"
 
 	"verifharness/lab"
@@ -50,6 +51,40 @@ func (p *panicCatcher) take() []string {
 	m := p.msgs
 	p.msgs = nil
 	return m
+}
+
+// blackholeTarget returns the address of a TCP endpoint that never answers a connection attempt:
+// a listening socket with a zero backlog whose accept queue is kept full (the kernel then drops
+// further SYNs, the caller's connect stays in SYN-SENT).
+func blackholeTarget(ip net.IP, port int) (cleanup func(), err error) {
+	fd, err := syscall.Socket(syscall.AF_INET, syscall.SOCK_STREAM, 0)
+	if err != nil {
+		return nil, err
+	}
+	syscall.SetsockoptInt(fd, syscall.SOL_SOCKET, syscall.SO_REUSEADDR, 1)
+	var sa syscall.SockaddrInet4
+	copy(sa.Addr[:], ip.To4())
+	sa.Port = port
+	if err := syscall.Bind(fd, &sa); err != nil {
+		syscall.Close(fd)
+		return nil, err
+	}
+	if err := syscall.Listen(fd, 0); err != nil {
+		syscall.Close(fd)
+		return nil, err
+	}
+	var fillers []net.Conn
+	for i := 0; i < 4; i++ { // fill the accept queue (never accepted)
+		if cn, err := net.DialTimeout("tcp", net.JoinHostPort(ip.String(), fmt.Sprint(port)), 300*time.Millisecond); err == nil {
+			fillers = append(fillers, cn)
+		}
+	}
+	return func() {
+		for _, f := range fillers {
+			f.Close()
+		}
+		syscall.Close(fd)
+	}, nil
 }
 
 // tcpCanary: "the service still works" = one of three ordinary exchanges is served (an attempt
@@ -369,6 +404,53 @@ func c18TCP(c *vk.Ctx, r *rand.Rand, catcher *panicCatcher) bool {
 	}
 	c.Count("tcp_shutdown_orderings_checked", 1)
 	c.Eval("tcp|listener-shutdown-mid-handshake-and-mid-relay")
+	// a handler is waiting for a target that never answers when its listener is closed and its
+	// client leaves: it does not sit out the connect timeout (minutes) - serving stops within the bound
+	for i := 0; i < c.N(2, 6); i++ {
+		bip := net.IPv4(45, 71, byte(c.Batch), byte(100+i))
+		cleanup, err := blackholeTarget(bip, 7070)
+		if err != nil {
+			c.Note("no black-hole target: %v", err)
+			break
+		}
+		rg := StartTCPRig(keys, TCPRigOpts{Timeout: 600 * time.Millisecond, Raw: i%2 == 0})
+		k := keys[i%len(keys)]
+		cl, err := DialSS(rg.Addr4(), randSrc4(r), k, randBytes(r, k.Codec().C.SaltSize))
+		if err != nil {
+			cleanup()
+			rg.Close(time.Second)
+			continue
+		}
+		cl.WriteRaw(cl.Enc.Encode(append(sscodec.AddrIP(bip, 7070, false), 'b'), nil))
+		rec := rg.Rec(cl.Local, 5*time.Second)
+		for j := 0; j < 500 && rec != nil && len(rec.Snap().Auth) == 0; j++ {
+			time.Sleep(2 * time.Millisecond)
+		}
+		time.Sleep(150 * time.Millisecond) // the handler is in its dial now
+		stillDialing := rec != nil && len(rec.Snap().Closed) == 0
+		cl.Conn.Close()
+		t0 := time.Now()
+		rg.Ln.Close()
+		var stopped bool
+		select {
+		case <-rg.done:
+			stopped = true
+		case <-time.After(udpB):
+		}
+		cleanup()
+		c.Eval("tcp|listener-closed-while-a-handler-dials-a-silent-target")
+		if !stillDialing {
+			c.Inconclusive("black-hole target: the dial did not hang (the handler had finished before the listener was closed)")
+		} else if !stopped {
+			c.Violation("C18/serving-does-not-stop-after-listener-closed", map[string]any{"scenario": "a handler was dialling a target that never answers; its client left and the listener was closed", "waited": time.Since(t0).String(), "handlers_running": rg.active.Load()})
+			return false
+		} else {
+			c.Count("pending_dials_abandoned_at_listener_close", 1)
+		}
+		if !stopped {
+			rg.Close(time.Second)
+		}
+	}
 	// the listener closes immediately after a connection was accepted (its handler has not even
 	// started): serving must still not stop before that handler has returned
 	for i := 0; i < c.N(20, 100); i++ {
@@ -811,7 +893,7 @@ func init() {
 			return "", false
 		},
 		Run: func(c *vk.Ctx) {
-			for _, s := range []string{"tcp_hostile_cases_survived", "udp_hostile_cases_survived", "tcp_shutdown_orderings_checked", "accept_failure_bursts_survived", "udp_writes_straddling_expiry", "udp_injected_panics_survived", "udp_reply_cases_v4", "udp_reply_cases_v6", "udp_reply_cases_zoned-link-local", "leak_audits_passed", "close_right_after_accept_orderings_checked"} {
+			for _, s := range []string{"tcp_hostile_cases_survived", "udp_hostile_cases_survived", "tcp_shutdown_orderings_checked", "accept_failure_bursts_survived", "udp_writes_straddling_expiry", "udp_injected_panics_survived", "pending_dials_abandoned_at_listener_close", "udp_reply_cases_v4", "udp_reply_cases_v6", "udp_reply_cases_zoned-link-local", "leak_audits_passed", "close_right_after_accept_orderings_checked"} {
 				c.Require(s)
 			}
 			c18Run(c)
